@@ -159,10 +159,10 @@ def check_form_a(ctx, f, B, m, ap, blocks):
     ctx.add('D.no-extra-effects', m, loc(B.root), not others, 'LdapConn::%s modifies state besides delegating' % m)
 
 def norm_ty(t):
-    t = re.sub(r"search::SearchStream<'a, S, A>", 'STREAM', t)
-    t = re.sub(r"sync::EntryStream<'a, 'b, S, A>", 'STREAM', t)
+    t = re.sub(r"ldap3::search::SearchStream<'a, S, A>", 'STREAM', t)
+    t = re.sub(r"ldap3::sync::EntryStream<'a, 'b, S, A>", 'STREAM', t)
     t = re.sub(r"&'[a-z_0-9]+ ", '&', t)
-    t = t.replace('sync::LdapConn', 'SELF').replace('ldap::Ldap', 'SELF')
+    t = t.replace('ldap3::sync::LdapConn', 'SELF').replace('ldap3::ldap::Ldap', 'SELF')
     m = re.match(r'impl core::future::future::Future<Output = (.*)>$', t)
     if m:
         t = m.group(1)
